@@ -102,6 +102,21 @@ def run(rep, tier):
         ok = good and bool(errs) and not any(pr.reachable_from([t], avoid=[cb[0].block]) & {r.block for r in post} for t in errs)
     rep.ob("R12.1", "tombstone-after-ack|purge_removed_nodes", ok, "a tombstone is retired after the delete callback only on its Ok(true) edge", pr.file + ":%d" % pr.line)
 
+    # dirty marks are retired only if no mutation crossed the I/O window (version still equal to the snapshot's)
+    from .idxcommon import retire_under_equality, recv_fields
+    for fname in ("commit_flush_snapshot", "store_dirty_nodes"):
+        g = prog.fn(H + "::" + fname)
+        rep.saw(g, len(g.events))
+        rb = [e.block for e in g.calls() if re.search(r"(HashSet|BTreeSet|HashMap|BTreeMap|Vec)(::)?<.*>::(remove|clear|retain|take|pop_first|pop_last|split_off|drain|extract_if)$", e.callee or "")
+              and "dirty_nodes" in recv_fields(g, e)]
+        if fname == "store_dirty_nodes":
+            # only removals that follow the write callback have an I/O window behind them; the synchronous retirement of a
+            # mark whose node no longer exists (no external write, structural lock held throughout) needs no re-check
+            cbs = [e.block for e in g.calls() if re.search(r"ops::function::Fn(Mut|Once)?::call(_mut|_once)?$|AsyncFn(Mut|Once)?::async_call", e.callee or "")]
+            if not cbs:
+                raise CheckerFault("store_dirty_nodes: the node write callback was not found")
+            rb = [b for b in rb if any(g.dominates(c, b) for c in cbs)]
+        retire_under_equality(rep, "R12.1", g, fname, rb, {"version"}, "the removal of a snapshotted id from dirty_nodes")
     rep.rule("R12.2", "structural state (entry_point, ids, removed_nodes, dirty_nodes) written only under structural_lock; snapshot capture/commit hold it", floor=8)
     GT = r"lock_api::mutex::MutexGuard<'_, parking_lot::raw_mutex::RawMutex, \(\)>"
     nwr = 0
